@@ -89,7 +89,9 @@ func dyn(u string, attempt int) (world.Resp, bool) {
 		}
 		return world.Resp{Status: 200, Header: map[string]string{"Content-Type": "image/png"}, Body: "\x89PNG\r\n\x1a\n0000"}, true
 	case "/hub":
-		return world.Resp{Status: 200, Header: html, Body: `<!DOCTYPE html><html><body><img src="/a.png"><img src="/ra"><a href="` + H + `/in1">in</a> <a href="http://other.example/out1">out</a></body></html>`}, true
+		// outlinks from all three sources: <a href>, the Link response header, bare URLs in the text
+		hdr := map[string]string{"Content-Type": "text/html; charset=utf-8", "Link": `<http://other.example/hdr1>; rel="next", <` + H + `/in2>; rel="alternate"`}
+		return world.Resp{Status: 200, Header: hdr, Body: `<!DOCTYPE html><html><body><img src="/a.png"><img src="/ra"><a href="` + H + `/in1">in</a> <a href="http://other.example/out1">out</a> see http://other.example/plain1 and ` + H + `/in3 for more</body></html>`}, true
 	case "/ra":
 		return world.Resp{Status: 301, Header: map[string]string{"Location": "/ra.png"}}, true
 	case "/a.png", "/ra.png":
